@@ -264,6 +264,108 @@ theorem rbe3Grid_mul_indRows {m nd : ℕ} (solve : Solver ℝ)
       (fun k => effWt (charLen grids dep) (ind k).dof (ind k).w) (gridRowsMx dep dep.p) dd := rfl
   rw [hdef, indRows_move ind dep.p ref, ← Matrix.mul_assoc, h0, selRows_mul, ← gridRowsMx_move]
 
+/-! ### full column rank from three grids that are not on a line -/
+
+/-- in every branch of `rbgeom_uset` the rows of a grid are `F · [I, -(p - ref)×; 0, I]` with an invertible
+`F` that does not depend on the reference point -/
+theorem gridRb_eq_lmul (co : CoordInfo ℝ) (p : V3 ℝ) (hT : IsFrame co.T) :
+    ∃ F : M3 ℝ, F.det ≠ 0 ∧ ∀ ref, gridRb co p ref = Rb.lmul F (rigid (p.sub ref)) := by
+  have dT : co.T.transpose.det ≠ 0 := hT.det_transpose_ne
+  have dz : ∀ t : ℝ, (rotzT t).det = 1 := fun t => by
+    rw [← det_transpose]; exact (rotzT_frame t).2
+  have ds : ∀ t : ℝ, (sphT t).det = 1 := fun t => by
+    rw [← det_transpose]; exact (sphT_frame t).2
+  unfold gridRb
+  cases co.typ <;> simp only [] <;> (try split_ifs) <;> (try simp only [lmul_lmul]) <;>
+    exact ⟨_, by (first | exact dT | (simp only [det_mul, dz, ds, one_mul]; exact dT)), fun _ => rfl⟩
+
+theorem mulVec_eq_zero_of_det_ne (F : M3 ℝ) (h : F.det ≠ 0) {v : V3 ℝ} (hv : F.mulVec v = V3.zero) :
+    v = V3.zero := by
+  have := congrArg F.inv.mulVec hv
+  rw [mulVec_mulVec, inv_mul_self F h, one_mulVec] at this
+  rw [this]; coord_ring
+
+/-- `ω × a = 0`, `ω × b = 0` and `a × b ≠ 0` force `ω = 0` -/
+theorem omega_zero (ω a b : V3 ℝ) (h1 : ω.cross a = V3.zero) (h2 : ω.cross b = V3.zero)
+    (hn : a.cross b ≠ V3.zero) : ω = V3.zero := by
+  have id : V3.smul ((a.cross b).dot (a.cross b)) ω
+      = (V3.smul (-(a.dot (ω.cross b))) (a.cross b)).sub
+          ((a.cross b).cross ((b.cross (ω.cross a)).sub (a.cross (ω.cross b)))) := by
+    coord_simp; split_ands <;> ring
+  rw [h1, h2] at id
+  have hpos := dot_self_pos_of_ne hn
+  have hz : V3.smul ((a.cross b).dot (a.cross b)) ω = V3.zero := by
+    rw [id]; coord_simp; split_ands <;> ring
+  simp only [V3.smul, V3.zero, V3.ext_iff] at hz
+  obtain ⟨hx, hy, hz⟩ := hz
+  ext
+  · exact (mul_eq_zero.mp hx).resolve_left hpos.ne'
+  · exact (mul_eq_zero.mp hy).resolve_left hpos.ne'
+  · exact (mul_eq_zero.mp hz).resolve_left hpos.ne'
+
+/-- a row of the 6x6 block times `z = (t, ω)` -/
+theorem toMx_mulVec (r : Rb ℝ) (z : Fin 6 → ℝ) (i : Fin 6) :
+    ∑ j, r.toMx i j * z j = v6 (r.apply ⟨z 0, z 1, z 2⟩ ⟨z 3, z 4, z 5⟩) i := by
+  rw [Fin.sum_univ_six]
+  fin_cases i <;> simp [Rb.toMx, Rb.rowAt, v6, Rb.apply, M3.mulVec, V3.add, V3.dot] <;> ring
+
+/-- the translational rows of a grid applied to a rigid motion `z = (t, ω)` vanish only if
+`t + ω × (p - ref) = 0` -/
+theorem trans_rows_zero (g : GridR ℝ) (hq : g.q = false) (hT : IsFrame g.co.T) (ref : V3 ℝ)
+    (z : Fin 6 → ℝ)
+    (h : ∀ c : Fin 6, c.val < 3 → ∑ j, gridRowsMx g ref c j * z j = 0) :
+    (V3.mk (z 0) (z 1) (z 2)).add ((V3.mk (z 3) (z 4) (z 5)).cross (g.p.sub ref)) = V3.zero := by
+  obtain ⟨F, hF, hrb⟩ := gridRb_eq_lmul g.co g.p hT
+  apply mulVec_eq_zero_of_det_ne F hF
+  have h0 := h 0 (by decide)
+  have h1 := h 1 (by decide)
+  have h2 := h 2 (by decide)
+  simp only [gridRowsMx, hq, Bool.false_eq_true, if_false, hrb ref, toMx_mulVec, lmul_rigid_apply] at h0 h1 h2
+  simp only [v6] at h0 h1 h2
+  ext
+  · exact h0
+  · exact h1
+  · exact h2
+
+/-- translations of three grids that are not on a line determine the rigid motion: the independent rows
+have full column rank -/
+theorem indRows_fullrank_of_three {m : ℕ} (ind : Fin m → IndDof ℝ) (ref : V3 ℝ) (g1 g2 g3 : GridR ℝ)
+    (hq : g1.q = false ∧ g2.q = false ∧ g3.q = false)
+    (hT : IsFrame g1.co.T ∧ IsFrame g2.co.T ∧ IsFrame g3.co.T)
+    (hnc : NonCollinear g1.p g2.p g3.p)
+    (hcov : ∀ g, g = g1 ∨ g = g2 ∨ g = g3 → ∀ c : Fin 6, c.val < 3 → ∃ k, (ind k).g = g ∧ (ind k).dof = c) :
+    Function.Injective (toM (indRows ind ref)).mulVec := by
+  suffices key : ∀ z : Fin 6 → ℝ, (toM (indRows ind ref)).mulVec z = 0 → z = 0 by
+    intro x y hxy
+    exact sub_eq_zero.mp (key (x - y) (by rw [Matrix.mulVec_sub, hxy, sub_self]))
+  intro z hz
+  have rows : ∀ g, g = g1 ∨ g = g2 ∨ g = g3 → ∀ c : Fin 6, c.val < 3 →
+      ∑ j, gridRowsMx g ref c j * z j = 0 := by
+    intro g hg c hc
+    obtain ⟨k, hk, hd⟩ := hcov g hg c hc
+    have := congrFun hz k
+    simp only [Matrix.mulVec, dotProduct, indRows, hk, hd] at this
+    exact this
+  have e1 := trans_rows_zero g1 hq.1 hT.1 ref z (rows g1 (Or.inl rfl))
+  have e2 := trans_rows_zero g2 hq.2.1 hT.2.1 ref z (rows g2 (Or.inr (Or.inl rfl)))
+  have e3 := trans_rows_zero g3 hq.2.2 hT.2.2 ref z (rows g3 (Or.inr (Or.inr rfl)))
+  set t : V3 ℝ := ⟨z 0, z 1, z 2⟩ with ht
+  set ω : V3 ℝ := ⟨z 3, z 4, z 5⟩ with hω
+  have hω0 : ω = V3.zero := by
+    apply omega_zero ω (g2.p.sub g1.p) (g3.p.sub g1.p) _ _ hnc
+    · have : ω.cross (g2.p.sub g1.p)
+          = (t.add (ω.cross (g2.p.sub ref))).sub (t.add (ω.cross (g1.p.sub ref))) := by coord_ring
+      rw [this, e1, e2]; coord_ring
+    · have : ω.cross (g3.p.sub g1.p)
+          = (t.add (ω.cross (g3.p.sub ref))).sub (t.add (ω.cross (g1.p.sub ref))) := by coord_ring
+      rw [this, e1, e3]; coord_ring
+  have ht0 : t = V3.zero := by
+    have : t = (t.add (ω.cross (g1.p.sub ref))).sub (ω.cross (g1.p.sub ref)) := by coord_ring
+    rw [this, e1, hω0]; coord_ring
+  simp only [ht, hω, V3.zero, V3.ext_iff] at ht0 hω0
+  funext j
+  fin_cases j <;> simp [ht0.1, ht0.2.1, ht0.2.2, hω0.1, hω0.2.1, hω0.2.2]
+
 /-! ### a full-rank instance -/
 
 /-- three grids (not on a line) in the basic system -/
